@@ -20,6 +20,8 @@ def run(ctx):
         gsm.run(ctx, "C05", 80 if q else 800)
         from .. import adpcmenc       # IMA / MS ADPCM write contract: counts, frames after re-open, refused seeks leave no trace
         adpcmenc.run(ctx, "C05", 100 if q else 1000)
+        from .. import voxcamp        # OKI/VOX: the held sample of odd item counts (lean/SfModel/Oki.lean writeBlock / closeCarry / readBlock)
+        voxcamp.run(ctx, "C05", 120 if q else 1200)
         from .. import codecs20       # a table entry of the tree differs from the published one: look for an input that shows it
         codecs20.search(ctx)
         from .. import querycamp     # count / position / end-of-data clauses of reads with non-audio calls in between
